@@ -26,3 +26,80 @@
 //@   requires k >= 1
 //@   ensures anc(k, k)
 //@   use unfold(anc(k, k))
+
+// ---- eytzinger layout: subtree sizes and in-order ranks of the implicit tree with n nodes ----
+// sz(n, k)   = number of nodes of the subtree rooted at k (0 when k > n).
+// lo(n, k)   = in-order rank (0-based) of the first node of the subtree rooted at k.
+// rank(n, k) = in-order rank of node k itself = lo(n, k) + sz(n, 2k): the index of the ascending input that
+//              eytzinger(in, out, 0, 1) stores in out[k-1].
+
+//@ spec func sz(n int, k int) int = ite(k >= 1 && k <= n, 1 + sz(n, 2*k) + sz(n, 2*k+1), 0)
+//@ spec func lo(n int, k int) int = ite(k <= 1, 0, ite(k % 2 == 0, lo(n, k/2), lo(n, k/2) + sz(n, k-1) + 1))
+//@ spec func rank(n int, k int) int = lo(n, k) + sz(n, 2*k)
+
+//@ lemma szNonneg(n int, k int)
+//@   requires k >= 1
+//@   ensures sz(n, k) >= 0
+//@   decreases ite(k <= n, n + 1 - k, 0)
+//@   induct szNonneg(n, 2*k)
+//@   induct szNonneg(n, 2*k+1)
+//@   use unfold(sz(n, k))
+
+//@ lemma ancDisjoint(j int, k int)
+//@   requires k >= 1
+//@   ensures !(anc(j, 2*k) && anc(j, 2*k+1))
+//@   decreases ite(j >= 0, j, 0)
+//@   induct ancDisjoint(j/2, k)
+//@   use unfold(anc(j, 2*k)) && unfold(anc(j, 2*k+1)) && unfold(anc(j/2, 2*k)) && unfold(anc(j/2, 2*k+1))
+
+// Adding node n to the tree adds one node to exactly the subtrees of its ancestors.
+//@ lemma szStep(n int, k int)
+//@   requires n >= 1 && k >= 1
+//@   ensures sz(n, k) == sz(n-1, k) + ite(anc(n, k), 1, 0)
+//@   decreases ite(k <= n, n + 1 - k, 0)
+//@   induct szStep(n, 2*k)
+//@   induct szStep(n, 2*k+1)
+//@   use unfold(sz(n, k)) && unfold(sz(n-1, k)) && unfold(anc(n, k)) && ancDisjoint(n, k) && (n > k ==> ancSplit(n, k))
+//@   use unfold(sz(n, 2*k)) && unfold(sz(n, 2*k+1)) && unfold(sz(n-1, 2*k)) && unfold(sz(n-1, 2*k+1))
+
+//@ lemma szRoot(n int)
+//@   requires n >= 0
+//@   ensures sz(n, 1) == n
+//@   decreases n
+//@   induct szRoot(n-1)
+//@   use unfold(sz(n, 1)) && (n >= 1 ==> szStep(n, 1)) && (n >= 1 ==> ancRoot(n))
+
+// Nesting: the in-order ranks of the subtree of j lie inside those of any ancestor k.
+//@ lemma loRange(n int, j int, k int)
+//@   requires k >= 1 && j <= n && anc(j, k)
+//@   ensures lo(n, k) <= lo(n, j) && lo(n, j) + sz(n, j) <= lo(n, k) + sz(n, k)
+//@   decreases ite(j >= 0, j, 0)
+//@   induct loRange(n, j/2, k)
+//@   use unfold(anc(j, k)) && unfold(lo(n, j)) && unfold(sz(n, j/2)) && szNonneg(n, j) && szNonneg(n, 2*(j/2)) && szNonneg(n, 2*(j/2)+1)
+
+// Search-tree order of the ranks: every node below the left child of k has a smaller rank than k, every node below
+// the right child a larger one.
+//@ lemma eytzOrder(n int, j int, k int)
+//@   requires k >= 1 && k <= n && 1 <= j && j <= n
+//@   ensures anc(j, 2*k) ==> lo(n, j) + sz(n, 2*j) < lo(n, k) + sz(n, 2*k)
+//@   ensures anc(j, 2*k+1) ==> lo(n, j) + sz(n, 2*j) > lo(n, k) + sz(n, 2*k)
+//@   use (anc(j, 2*k) ==> loRange(n, j, 2*k)) && (anc(j, 2*k+1) ==> loRange(n, j, 2*k+1))
+//@   use unfold(sz(n, j)) && unfold(lo(n, 2*k)) && unfold(lo(n, 2*k+1)) && szNonneg(n, 2*j) && szNonneg(n, 2*j+1)
+
+// Every node has a rank inside the input.
+//@ lemma rankRange(n int, j int)
+//@   requires 1 <= j && j <= n
+//@   ensures 0 <= rank(n, j) && rank(n, j) < n
+//@   use ancRoot(j) && loRange(n, j, 1) && szRoot(n) && unfold(lo(n, 1)) && unfold(sz(n, j)) && szNonneg(n, 2*j) && szNonneg(n, 2*j+1)
+
+// The layout of a strictly ascending sequence is a binary search tree: with seqH(s, p) the key at index p of an
+// (abstract) strictly ascending sequence s of length n, and H(j) = seqH(s, rank(n, j)) the key that eytzinger stores in
+// node j, H(j) < H(k) below the left child of k and H(j) > H(k) below the right child. These are exactly the two
+// order hypotheses of searchEytzinger.
+//@ spec func seqH(s int, p int) int
+//@ lemma eytzBST(s int, n int, j int, k int)
+//@   requires k >= 1 && k <= n && 1 <= j && j <= n
+//@   requires forall p, q int :: 0 <= p && p < q && q < n ==> seqH(s, p) < seqH(s, q)
+//@   ensures anc(j, 2*k) ==> seqH(s, rank(n, j)) < seqH(s, rank(n, k))
+//@   ensures anc(j, 2*k+1) ==> seqH(s, rank(n, j)) > seqH(s, rank(n, k))
+//@   use eytzOrder(n, j, k) && rankRange(n, j) && rankRange(n, k)
